@@ -56,6 +56,7 @@ static Arr gen(uint64_t seed, unsigned long idx, size_t nslots, int dir) {
     if (a.limit.bl.x == a.limit.tr.x || a.limit.bl.y == a.limit.tr.y) a.cls = 2;
     Position zero(0, 0);
     a.off = r(3) ? zero : Position(std::round(r.fr(a.limit.bl.x, a.limit.tr.x) * 0.5f), std::round(r.fr(a.limit.bl.y, a.limit.tr.y) * 0.5f));
+    if ((a.off.x != 0 || a.off.y != 0) && r(3) == 0) { if (r(2)) a.off.x = 0; else a.off.y = 0; }      // the usual result of an earlier x-only / y-only fix
     a.sh = r(3) ? zero : Position(std::round(r.fr(a.limit.bl.x - a.off.x, a.limit.tr.x - a.off.x) * 0.5f), std::round(r.fr(a.limit.bl.y - a.off.y, a.limit.tr.y - a.off.y) * 0.5f));
     a.margin = float(r(30)); a.mw = float(r(10));
     if (dir == 0 && a.cls != 1 && a.off.x != 0) a.cls = 3;
